@@ -201,12 +201,12 @@ PROPS = {
                 "threads made to exit at threads_enumerated / before_attach through the sync hook (target not group-stopped), a blamed thread traced by "
                 "another process, busy threads keeping one counter in a register, a stack slot and an app-memory word. Distinct = (thread count, #exits, tag set).",
         "expected_tags": ["pctx", "thread.checked", "exit.omitted", "busy.checked", "blamed.traced", "exits.threads_enumerated", "exits.before_attach"],
-        "extra_theorems": ["plan_no_target_read_after_resume", "plan_resume_reached", "System_threads"],
+        "extra_theorems": ["plan_no_target_read_after_resume", "plan_resume_reached", "System_threads", "Suspend_source_agrees", "Suspend_retained", "Suspend_every_thread_tried", "Suspend_kept_listed", "Suspend_partition", "Suspend_no_threads_left", "Suspend_no_threads_left_reported"],
         "trusted_base": ["kernel ptrace stop semantics (a thread that was attached and waited for does not run until detached)", "the live target reports its own register values"],
         "assumptions": ["part (iii) is partial: real scheduling cannot be exhibited by the model; live runs sample it (busy threads, one-step agreement of three copies of a counter)"],
         "explanation": "C04 theorems: (i) every ptrace-obtained register at its WinNT CONTEXT offset; (ii) the list is exactly the attachable, non-null-SP threads, "
                        "once each, each with its own registers, every omitted thread reported; (iii) regenerated source fact: no target-reading step after resume. C04_refine_thread_list: thread_list_stream::write as builder operations (count, reserved record array, per thread stack / window / context then set_value_at(record, idx)) appends exactly the thread-list stage of the whole-image model, one record per thread in order, and registers exactly its memory blocks and crashing-thread context; C04_image_thread: record k points at thread k's own context bytes. System_threads (Theorems/System.lean): the image of the request-as-one-function lists the attached threads one to one, in order, with their ids.",
-        "extra_modules": ["MdwModel.Theorems.System"],
+        "extra_modules": ["MdwModel.Theorems.System", "MdwModel.Theorems.Suspend"],
     },
     "C07": {
         "rule": "live dumps: pattern regions of 1 … 70000 bytes at all alignments ending at an unmapped / PROT_NONE / readable page requested as app memory, "
@@ -305,7 +305,8 @@ PROPS = {
                 "step that copies one of the target's files or reads its memory must be listed under its own label, no completed step may be), nothing induced. The soft-error stream is parsed with serde_json and reduced to its list of variant paths. "
                 "Distinct = (scenario, mask, #threads, principal). Also a linker list with an object name that is not UTF-8 (badlink). Also: the blamed thread traced by somebody else on a writer that served a request before (traced-reused), compared with a fresh writer's dump of the same situation.",
         "expected_tags": ["scen.faults", "scen.badname", "scen.baddso", "scen.traced", "scen.none", "scen.killed", "killed.checked", "scen.badlink", "scen.traced-reused", "scen.alltraced", "mask.0", "mask.31"],
-        "extra_theorems": ["plan_best_effort_soft", "plan_soft_errors_last"],
+        "extra_theorems": ["plan_best_effort_soft", "plan_soft_errors_last", "Suspend_source_agrees", "Suspend_retained", "Suspend_every_thread_tried", "Suspend_kept_listed", "Suspend_partition", "Suspend_no_threads_left", "Suspend_no_threads_left_reported"],
+        "extra_modules": ["MdwModel.Theorems.Suspend"],
         "trusted_base": ["serde_json emits well-formed JSON (the harness re-parses it)", "error-graph pushes a sub-list to its parent on drop iff it is non-empty", "failspot"],
         "assumptions": ["the stop time-out (StopProcessFailed/Timeout) may appear on its own when a thread is traced by another process: timing dependent, tolerated in the natural scenarios"],
         "explanation": "C11 theorems: for every stream plan and every set of failing soft steps the dump completes, exactly the failing steps are recorded in order and "
